@@ -157,6 +157,9 @@ def histories(draw):
     for fn, vi, oi, ki, aseed in raw:
         kind, vk = variants[vi % len(variants)]
         c = {"fn": fn, "variant": kind, "vk": vk, "optimize": opts[oi % len(opts)], "aseed": aseed}
+        # one array-taking call in six hands one operand over with extent 1
+        # along a shared label
+        c["stretch"] = aseed if aseed % 6 == 0 else None
         c.update(kwsets[ki % len(kwsets)])
         calls.append(c)
     return {"net": net, "p1": p1, "p2": p2, "calls": calls, "labmode": labmode}
@@ -385,6 +388,33 @@ def run_case(spec, sub=None):
         do_sort = bool(call["sort"]) and labmode != "int_nocanon"
         if do_sort:
             kw["sort_contraction_indices"] = True
+        # the very same equation with one operand of extent 1 along a label
+        # that others carry in full (numpy-style broadcasting): same size_dict,
+        # so the same cache entry as the full-size call - but other shapes
+        # (with the library's own pairwise kernels: the backend's tensordot does
+        # not broadcast - DESIGN section 3, observed and not claimed)
+        if (
+            call.get("stretch") is not None and fn in ("einsum", "array_contract") and o != "tree_sliced"
+            and labmode == "str" and call.get("impl") in (None, "cotengra")
+        ):
+            cnt_ = {}
+            for t in inputs:
+                for ix in set(t):
+                    cnt_[ix] = cnt_.get(ix, 0) + 1
+            opts_ = [
+                (i, ix) for i, t in enumerate(inputs) for ix in sorted(set(t))
+                if t.count(ix) == 1 and cnt_[ix] >= 2 and sizes[ix] >= 2
+            ]
+            if opts_:
+                i_, ix_ = opts_[call["stretch"] % len(opts_)]
+                ax_ = list(inputs[i_]).index(ix_)
+                small_ = np.take(arrays[i_], [0], axis=ax_)
+                full_ = list(arrays)
+                full_[i_] = np.ascontiguousarray(np.repeat(small_, sizes[ix_], axis=ax_))
+                exp = ref.dense_ref(inputs, output, sizes, full_)
+                arrays = list(arrays)
+                arrays[i_] = small_
+                cls.append("broadcast_operand")
         strip = call["strip"]
         if strip == "np_false":
             strip = np.False_
